@@ -37,7 +37,7 @@ ASSUMPTIONS = ["the pattern library is terminating for every application order (
                "insertion; attaching ops of a detached block is"]
 JOB_TIMEOUT = {"quick": 600, "thorough": 3600}
 
-SHARDS = {"quick": (32, 75), "thorough": (64, 500)}
+SHARDS = {"quick": (32, 50), "thorough": (64, 500)}
 ANCHORS = [("PatternRewriteWalker", "rewrite_region"), ("PatternRewriteWalker", "_populate_worklist"),
            ("PatternRewriteWalker", "_process_worklist"), ("PatternRewriteWalker", "_handle_operation_insertion"),
            ("PatternRewriteWalker", "_handle_operation_removal"), ("PatternRewriteWalker", "_handle_operation_modification"),
@@ -100,6 +100,8 @@ def work(job):
         add("mode:" + cfg["mode"])
         add(f"perturb:p={cfg['perturb']}")
         add("hook:" + cfg["hook"])
+        if cfg.get("hook_enables_pattern"):
+            add("cases_where_only_the_hook_enables_a_pattern")
         if cfg["inert_patterns"]:
             add("cases_without_any_matching_pattern")
         add("perturbed_pops", r["perturbed_pops"])
@@ -139,8 +141,8 @@ def work(job):
 
 QUICK_MIN = {
     "invocations": 20000, "mutating_invocations": 3000, "fixpoint_checked_cases": 500, "fixpoint_reapplications": 5000,
-    "distinct_pop_orders": 1000, "perturbed_pops": 2000, "applier_dce_erasures": 50, "applier_fold_rewrites": 20,
-    "nontrivial_cases": 500, "irsan_walks": 1000, "ops_newly_attached": 2000, "ops_left_region": 2000,
+    "distinct_pop_orders": 600, "perturbed_pops": 2000, "applier_dce_erasures": 50, "applier_fold_rewrites": 20,
+    "nontrivial_cases": 300, "irsan_walks": 800, "ops_newly_attached": 2000, "ops_left_region": 2000,
     "ops_operands_or_types_changed": 2000, "events:ins": 500, "events:rem": 500, "events:mod": 500, "events:rep": 500,
     "events:blk": 50, "api_events_expected": 5000,
 }
@@ -163,13 +165,14 @@ def finish(agg, tier):
         if c.get("mode:" + m, 0) < 200 * mult:
             inc.append(f"mode {m} only {c.get('mode:' + m, 0)} cases")
     for p in L.PERTURB:
-        if c.get(f"perturb:p={p}", 0) < 500 * mult:
+        if c.get(f"perturb:p={p}", 0) < 300 * mult:
             inc.append(f"perturbation p={p} only {c.get(f'perturb:p={p}', 0)} cases")
     for h in L.HOOKS:
         if c.get("hook:" + h, 0) < 200 * mult:
             inc.append(f"post_walk_func configuration {h} only {c.get('hook:' + h, 0)} cases")
     for k, m in (("hook_calls_mutating", 200), ("hook_only_change_cases", 60), ("fixpoint_hook_reruns", 150),
-                 ("hook_blocks_removed", 50), ("hook_ops_removed", 300)):
+                 ("hook_blocks_removed", 50), ("hook_ops_removed", 300),
+                 ("cases_where_only_the_hook_enables_a_pattern", 40)):
         if c.get(k, 0) < m * mult:
             inc.append(f"monitor {k} reached {c.get(k, 0)} < {m * mult}")
     for p in L.PATTERNS:
